@@ -85,7 +85,7 @@ def fam_events(rng, n, thorough=False):
                 steps.append(write(1 + rng.randrange(2), rng.choice(["MsgAll", "FrameAll"]), t.next()))
             elif r < 0.32 and not closing_window:
                 # transport failure: the channel must report everything fed before, then close, then a new one opens
-                steps.append({"op": "read_err", "ep": ep})
+                steps.append({"op": "read_err", "ep": ep, "err": rng.choice(["", "", "deadline", "net_timeout", "eof", "unexpected_eof", "closed_pipe", "net_closed"])})
                 inst[ep] += 1
                 steps.append({"op": "wait_close", "ep": ep, "n": inst[ep] - 1})
                 steps.append({"op": "wait_open", "ep": ep, "n": inst[ep]})
@@ -504,7 +504,7 @@ def fam_faults(rng, thorough=False):
         for r in range(reps):
             for j in range(rng.randint(0, 3)):
                 steps.append(feed(0, "valid", t.next()))
-            steps.append({"op": "read_err", "ep": 0})
+            steps.append({"op": "read_err", "ep": 0, "err": ["", "deadline", "eof", "net_closed", "unexpected_eof"][(r + reps) % 5]})
             steps.append({"op": "wait_close", "ep": 0, "n": r + 1})
             steps.append({"op": "wait_open", "ep": 0, "n": r + 2})
         steps.append(feed(0, "valid", t.next()))
